@@ -85,6 +85,10 @@ type c04Rewrite struct {
 	// identity of the original address -> replacement addresses (canonical spelling in the table)
 	From c04Addr   `json:"from"`
 	To   []c04Addr `json:"to"`
+	// key and values are bare local parts: the recipient keeps its domain
+	LocalOnly bool `json:"local_only,omitempty"`
+	// a second replace_rcpt in the same modify block, applied to every result of the first
+	Then *c04Rewrite `json:"then,omitempty"`
 }
 
 type c04DstBlock struct {
@@ -184,6 +188,20 @@ func (g *c04G) rewrite(p int) *c04Rewrite {
 		to.Form = 0
 		rw.To = append(rw.To, to)
 	}
+	rw.LocalOnly = rapid.IntRange(0, 3).Draw(g.t, "local_only") == 0
+	if rapid.IntRange(0, 2).Draw(g.t, "then") == 0 {
+		th := &c04Rewrite{From: rapid.SampledFrom(rw.To).Draw(g.t, "then_from"), LocalOnly: rapid.IntRange(0, 3).Draw(g.t, "then_local_only") == 0}
+		if rapid.IntRange(0, 3).Draw(g.t, "then_other") == 0 {
+			th.From = g.addr(false)
+			th.From.Form = 0
+		}
+		for i, n := 0, rapid.SampledFrom([]int{1, 2, 2}).Draw(g.t, "then_nto"); i < n; i++ {
+			to := g.addr(false)
+			to.Form = 0
+			th.To = append(th.To, to)
+		}
+		rw.Then = th
+	}
 	return rw
 }
 
@@ -277,11 +295,23 @@ func c04Gen(t *rapid.T) c04Scenario {
 // ---- rendering to config nodes --------------------------------------------------------------------
 
 func c04RenderRewrite(rw *c04Rewrite) config.Node {
-	var tos []string
-	for _, t := range rw.To {
-		tos = append(tos, t.id())
+	var mods []config.Node
+	for ; rw != nil; rw = rw.Then {
+		var tos []string
+		for _, t := range rw.To {
+			if rw.LocalOnly {
+				tos = append(tos, c04Locals[t.Local])
+			} else {
+				tos = append(tos, t.id())
+			}
+		}
+		key := rw.From.id()
+		if rw.LocalOnly {
+			key = c04Locals[rw.From.Local]
+		}
+		mods = append(mods, config.Node{Name: "replace_rcpt", Args: []string{"verif_map", key, strings.Join(tos, ",")}})
 	}
-	return config.Node{Name: "modify", Children: []config.Node{{Name: "replace_rcpt", Args: []string{"verif_map", rw.From.id(), strings.Join(tos, ",")}}}}
+	return config.Node{Name: "modify", Children: mods}
 }
 
 func c04RenderDst(b c04DstBlock) []config.Node {
@@ -409,13 +439,19 @@ func c04ApplyRewrite(rw *c04Rewrite, rcpts []c04Addr) []c04Addr {
 	}
 	var out []c04Addr
 	for _, r := range rcpts {
-		if r.id() == rw.From.id() {
+		switch {
+		case !rw.LocalOnly && r.id() == rw.From.id():
 			out = append(out, rw.To...)
-		} else {
+		case rw.LocalOnly && r.Local == rw.From.Local:
+			// the table has no entry for the full address; the entry for the local part replaces the local part only
+			for _, to := range rw.To {
+				out = append(out, c04Addr{Local: to.Local, Dom: r.Dom})
+			}
+		default:
 			out = append(out, r)
 		}
 	}
-	return out
+	return c04ApplyRewrite(rw.Then, out)
 }
 
 func c04Match(tables bool, rules []struct {
